@@ -13,7 +13,7 @@
    serialisation of v (any insignificant spaces, tabs, LF, CR around the tokens; nesting below 256, the u8 flow
    level of the scanner; \u escapes that are not surrogate halves) into [wrap (json_tokens v)] with the escapes of
    strings decoded.  That half is FALSE on the unchanged tree for one class of texts — a ':' followed only by
-   TAB(s) and then a number or literal, see [C13_refuted_tab] — and is otherwise checked dynamically on every
+   TAB(s) and then a number or literal, see [C13_text_refuted] — and is otherwise checked dynamically on every
    run: ./check C13 compares the implementation's real token stream (hx tokens) with the extracted [json_tokens]
    of the generating value, and the loaded data with the extracted [yaml_of_json] (oracle [c13_impl_ok]). *)
 From Coq Require Import List NArith ZArith Bool.
@@ -69,11 +69,15 @@ Theorem C13_numbers : forall t, json_number t = true ->
 Proof. exact json_number_both. Qed.
 Print Assumptions C13_numbers.
 
-(* How the token-level theorem composes with the scanner model: run_load is load_tokens on the scanner's output. *)
-Theorem C13_run_load_split : forall s,
-  run_load s = let F := (length s + 10)%nat in load_tokens (4 * F + 20) (fst (scan_str s)) (snd (scan_str s)).
-Proof. exact run_load_tokens. Qed.
-Print Assumptions C13_run_load_split.
+(* How the token-level theorem composes with the scanner model (run_load = scanner model, then load_tokens):
+   whenever the scanner model delivers the tokens of a JSON value for a text, run_load delivers the value. *)
+Theorem C13_text_of_tokens : forall s v,
+  json_wf v = true ->
+  (forall F, let '(toks, _) := scan_all str_ops F (4 * F + 20) (init_sc {| si_chars := s; si_look := 0 |}) [] in
+             map snd toks = wrap (json_tokens v) /\ (length toks + 2 < 4 * F + 20)%nat) ->
+  run_load s = LDocs [yaml_of_json v].
+Proof. exact text_load_of_tokens. Qed.
+Print Assumptions C13_text_of_tokens.
 
 (* ---------------- examples: hypotheses satisfiable, end-to-end instances, the known finding ---------------- *)
 Definition ex_value : jvalue :=
@@ -99,13 +103,26 @@ Example C13_ex_numbers :
   = [SInt 0; SFloat (FDec false 9223372036854775808 0); SFloat (FDec false 1 400)].
 Proof. vm_compute. reflexivity. Qed.
 
-(* KNOWN FINDING (recorded in known_findings_c13.jsonl, not repaired): the text {"a":<TAB>1} is valid JSON and is
-   REJECTED — the "':' must be followed by a valid YAML whitespace" check of fetch_value also fires in flow
-   context.  The scanner model reproduces it, so the text -> tokens half of C13 is refuted on the unchanged tree. *)
-Example C13_refuted_tab :
-  exists v s, json_wf v = true /\ s = [123;34;97;34;58;9;49;125]%N   (* {"a":\t1} *)
-              /\ v = JObj [([97]%N, JNum [49]%N)] /\ run_load s = LErr.
-Proof. exists (JObj [([97]%N, JNum [49]%N)]), [123;34;97;34;58;9;49;125]%N. repeat split; vm_compute; reflexivity. Qed.
+(* ---------------- the text level ----------------
+   The full statement of C13 over the whole model pipeline (scanner + parser + loader), with the class of the
+   known finding excluded.  NOT PROVED: it needs the scanner half (scan_str of every serialisation of v is
+   wrap (json_tokens v) with decoded strings; then C13_text_of_tokens concludes).  Spec/Json.v: json_doc_text,
+   colon_tab. *)
+Definition C13_text_full : Prop := forall v s,
+  json_doc_text v s -> (json_depth v < 256)%nat -> colon_tab Tout s = false -> run_load s = LDocs [yaml_of_json v].
+Example C13_text_instance :
+  json_doc_text (JArr [JNum [49]%N; JStr [97;10;233]%N]) [91;49;32;44;10;34;97;92;110;92;117;48;48;101;57;34;93]%N
+  /\ run_load [91;49;32;44;10;34;97;92;110;92;117;48;48;101;57;34;93]%N = LDocs [yaml_of_json (JArr [JNum [49]%N; JStr [97;10;233]%N])].
+Proof. split; [exact text_example|vm_compute; reflexivity]. Qed.
+
+(* KNOWN FINDING (recorded in known_findings_c13.jsonl, not repaired): without the exclusion the statement is FALSE
+   on the unchanged tree.  The text {"a":<TAB>1} is a serialisation of {"a": 1} (valid JSON, depth 1) and is
+   REJECTED: the check "':' must be followed by a valid YAML whitespace" of fetch_value also fires in flow context.
+   The scanner model reproduces it (the implementation does too: ./check C13 prints the KNOWN-FINDING line). *)
+Theorem C13_text_refuted :
+  exists v s, json_doc_text v s /\ (json_depth v < 256)%nat /\ colon_tab Tout s = true /\ run_load s = LErr.
+Proof. exact text_refuted. Qed.
+Print Assumptions C13_text_refuted.
 (* with a space after the tab, or a quoted value after the tab, the same text loads *)
 Example C13_tab_space_ok : run_load [123;34;97;34;58;9;32;49;125]%N = LDocs [yaml_of_json (JObj [([97]%N, JNum [49]%N)])].
 Proof. vm_compute. reflexivity. Qed.
